@@ -50,7 +50,7 @@ theorem blockLen_full {bs sz i : Nat} (h : (i + 1) * bs ≤ sz) : blockLen bs sz
 /-- `createBlocks` pointwise. -/
 theorem createBlocks_get {bs sz : Nat} (hbs : 0 < bs) (i : Nat) :
     (createBlocks bs sz)[i]? =
-      if i < numBlocks bs sz then some ⟨blockLen bs sz i, false⟩ else none := by
+      if i < numBlocks bs sz then some ⟨blockLen bs sz i, false, false⟩ else none := by
   have hdm := Nat.div_add_mod sz bs
   have hml := Nat.mod_lt sz hbs
   rw [numBlocks_cases hbs]
@@ -100,11 +100,44 @@ theorem createBlocks_length {bs sz : Nat} (hbs : 0 < bs) :
 
 /-! ### Well-formed downloader states -/
 
+/-- Block `i` has a stored answer (`false` outside the block list). -/
+def recvd (d : ID) (i : Nat) : Bool :=
+  match d.blocks[i]? with
+  | some b => b.received
+  | none => false
+
+/-- Requests sent whose answer has not been stored yet. -/
+def outstanding (d : ID) : Nat := d.blocks.countP fun b => b.requested && !b.received
+
+theorem countP_set_of_get {α : Type} (p : α → Bool) :
+    ∀ (l : List α) (i : Nat) (a b : α), l[i]? = some a →
+      (l.set i b).countP p + (if p a then 1 else 0) = l.countP p + (if p b then 1 else 0) := by
+  intro l
+  induction l with
+  | nil => intro i a b h; simp at h
+  | cons x t ih =>
+    intro i a b h
+    cases i with
+    | zero =>
+      simp only [List.getElem?_cons_zero, Option.some.injEq] at h
+      subst h
+      simp only [List.set_cons_zero, List.countP_cons]
+      omega
+    | succ i =>
+      simp only [List.getElem?_cons_succ] at h
+      have := ih i a b h
+      simp only [List.set_cons_succ, List.countP_cons]
+      omega
+
+theorem recvd_congr {d d' : ID} {j : Nat} (h : d'.blocks[j]? = d.blocks[j]?) : recvd d' j = recvd d j := by
+  unfold recvd; rw [h]
+
 structure WF (bs sz : Nat) (d : ID) : Prop where
   msize : d.msize = sz
   blen : d.bytes.length = sz
   nblk : d.blocks.length = numBlocks bs sz
-  blk : ∀ i, i < numBlocks bs sz → d.blocks[i]? = some ⟨blockLen bs sz i, decide (i < d.next)⟩
+  blk : ∀ i, i < numBlocks bs sz →
+    d.blocks[i]? = some ⟨blockLen bs sz i, decide (i < d.next), recvd d i⟩ ∧ (recvd d i = true → i < d.next)
   next_le : d.next ≤ numBlocks bs sz
 
 theorem wf_new {bs sz : Nat} (hbs : 0 < bs) : WF bs sz (newWith bs sz) where
@@ -113,30 +146,46 @@ theorem wf_new {bs sz : Nat} (hbs : 0 < bs) : WF bs sz (newWith bs sz) where
   nblk := createBlocks_length hbs
   blk := by
     intro i hi
-    simp [newWith, createBlocks_get hbs, hi]
+    have e : (createBlocks bs sz)[i]? = some ⟨blockLen bs sz i, false, false⟩ := by
+      simp [createBlocks_get hbs, hi]
+    simp [newWith, recvd, e]
   next_le := Nat.zero_le _
 
-/-- `GotBlock` in normal form on well-formed states: the three guards, then the splice. -/
+/-- `GotBlock` in normal form on well-formed states: the four guards, then the splice. -/
 theorem gotBlock_spec {bs sz : Nat} (hbs : 0 < bs) {d : ID} (h : WF bs sz d) (i : Nat) (data : Bytes) :
     gotBlock bs d i data =
       if numBlocks bs sz ≤ i then (d, .err .index)
       else if ¬ i < d.next then (d, .err .unrequested)
       else if data.length ≠ blockLen bs sz i then (d, .err .size)
-      else ({ d with pending := d.pending - 1, bytes := splice d.bytes (i * bs) data }, .ok) := by
+      else if recvd d i = true then (d, .err .duplicate)
+      else ({ d with pending := d.pending - 1,
+                     blocks := d.blocks.set i ⟨blockLen bs sz i, true, true⟩,
+                     bytes := splice d.bytes (i * bs) data }, .ok) := by
   unfold gotBlock
   rw [h.nblk]
   by_cases hi : numBlocks bs sz ≤ i
   · simp [hi]
   · have hi' : i < numBlocks bs sz := by omega
     have hr := range_le hbs hi'
-    simp only [ge_iff_le, hi, ↓reduceIte, h.blk i hi']
+    simp only [ge_iff_le, hi, ↓reduceIte, (h.blk i hi').1]
     by_cases hn : i < d.next
     · simp only [hn, decide_true, Bool.not_true, Bool.false_eq_true, ↓reduceIte, not_true_eq_false]
       by_cases hl : data.length = blockLen bs sz i
       · have : ¬ (i * bs + blockLen bs sz i > d.bytes.length) := by rw [h.blen]; omega
-        simp only [hl, ne_eq, not_true_eq_false, ↓reduceIte, this, splice]
+        by_cases hrc : recvd d i = true
+        · simp [hl, hrc]
+        · simp only [hl, ne_eq, not_true_eq_false, ↓reduceIte, this, splice, hrc]
       · simp [hl]
     · simp [hn]
+
+theorem recvd_set (d : ID) (i j : Nat) (b : Blk) (hi : i < d.blocks.length) (bytes : Bytes) (p : Int) :
+    recvd { d with pending := p, blocks := d.blocks.set i b, bytes := bytes } j =
+      if i = j then b.received else recvd d j := by
+  unfold recvd
+  simp only [List.getElem?_set]
+  by_cases e : i = j
+  · subst e; simp [hi]
+  · simp [e]
 
 theorem wf_gotBlock {bs sz : Nat} (hbs : 0 < bs) {d : ID} (h : WF bs sz d) (i : Nat) (data : Bytes) :
     WF bs sz (gotBlock bs d i data).1 := by
@@ -147,13 +196,25 @@ theorem wf_gotBlock {bs sz : Nat} (hbs : 0 < bs) {d : ID} (h : WF bs sz d) (i : 
   · exact h
   split
   · exact h
-  · rename_i h1 h2 h3
+  split
+  · exact h
+  · rename_i h1 h2 h3 h4
     have hi : i < numBlocks bs sz := by omega
     have hr := range_le (sz := sz) hbs hi
     have hl : data.length = blockLen bs sz i := by omega
-    refine ⟨h.msize, ?_, h.nblk, h.blk, h.next_le⟩
-    simp only [splice, List.length_append, List.length_take, List.length_drop, h.blen]
-    omega
+    have hil : i < d.blocks.length := by rw [h.nblk]; exact hi
+    refine ⟨h.msize, ?_, by simp [h.nblk], ?_, h.next_le⟩
+    · simp only [splice, List.length_append, List.length_take, List.length_drop, h.blen]
+      omega
+    · intro j hj
+      rw [recvd_set d i j _ hil]
+      simp only [List.getElem?_set]
+      by_cases e : i = j
+      · subst e
+        have : i < d.next := by omega
+        simp [hil, this]
+      · simp only [e, ↓reduceIte]
+        exact h.blk j hj
 
 /-- The request loop on well-formed states. -/
 theorem requestLoop_spec {bs sz : Nat} (q : Int) :
@@ -162,7 +223,8 @@ theorem requestLoop_spec {bs sz : Nat} (q : Int) :
       WF bs sz r.1 ∧ r.1.bytes = d.bytes ∧ d.next ≤ r.1.next ∧
       r.2 = acc.reverse ++ List.range' d.next (r.1.next - d.next) ∧
       r.1.pending = d.pending + ((r.1.next - d.next : Nat) : Int) ∧
-      (r.1.next = numBlocks bs sz ∨ ¬ r.1.pending < q) := by
+      (r.1.next = numBlocks bs sz ∨ ¬ r.1.pending < q) ∧
+      (outstanding r.1 : Int) = outstanding d + ((r.1.next - d.next : Nat) : Int) := by
   intro fuel
   induction fuel with
   | zero =>
@@ -170,36 +232,54 @@ theorem requestLoop_spec {bs sz : Nat} (q : Int) :
     have := h.next_le
     have e : requestLoop q 0 d acc = (d, acc.reverse) := rfl
     rw [e]
-    refine ⟨h, rfl, Nat.le_refl _, by simp, by simp, Or.inl (by show d.next = _; omega)⟩
+    refine ⟨h, rfl, Nat.le_refl _, by simp, by simp, Or.inl (by show d.next = _; omega), by simp⟩
   | succ fuel ih =>
     intro d acc h hf
     by_cases hn : d.next < numBlocks bs sz
     · by_cases hp : d.pending < q
-      · have e : requestLoop q (fuel + 1) d acc =
-            requestLoop q fuel ⟨d.msize, d.bytes, d.blocks.set d.next ⟨blockLen bs sz d.next, true⟩,
+      · have hrf : recvd d d.next = false := by
+          cases h' : recvd d d.next
+          · rfl
+          · have := (h.blk _ hn).2 h'; omega
+        have hblk := (h.blk _ hn).1
+        rw [hrf] at hblk
+        have e : requestLoop q (fuel + 1) d acc =
+            requestLoop q fuel ⟨d.msize, d.bytes, d.blocks.set d.next ⟨blockLen bs sz d.next, true, false⟩,
               d.pending + 1, d.next + 1⟩ (d.next :: acc) := by
-          simp only [requestLoop, h.blk _ hn, hp, ↓reduceIte]
+          simp only [requestLoop, hblk, hp, ↓reduceIte]
         rw [e]
-        have hwf : WF bs sz ⟨d.msize, d.bytes, d.blocks.set d.next ⟨blockLen bs sz d.next, true⟩,
+        have hwf : WF bs sz ⟨d.msize, d.bytes, d.blocks.set d.next ⟨blockLen bs sz d.next, true, false⟩,
               d.pending + 1, d.next + 1⟩ := by
           refine ⟨h.msize, h.blen, by simp [h.nblk], ?_, by simp; omega⟩
           intro i hi
-          simp only [List.getElem?_set, h.nblk]
           by_cases hi2 : d.next = i
-          · subst hi2; simp [hn]
-          · simp only [hi2, ↓reduceIte, h.blk i hi]
+          · subst hi2; simp [recvd, h.nblk, hn]
+          · have hb := h.blk i hi
+            have hg : (d.blocks.set d.next ⟨blockLen bs sz d.next, true, false⟩)[i]? = d.blocks[i]? := by
+              simp [hi2]
+            rw [recvd_congr (d' := ⟨d.msize, d.bytes, d.blocks.set d.next ⟨blockLen bs sz d.next, true, false⟩,
+              d.pending + 1, d.next + 1⟩) (d := d) hg]
+            refine ⟨?_, fun hr => Nat.lt_succ_of_lt (hb.2 hr)⟩
+            show (d.blocks.set d.next _)[i]? = _
+            rw [hg, hb.1]
             congr 2
             simp only [decide_eq_decide]
+            show i < d.next ↔ i < d.next + 1
             omega
-        generalize hd1 : (⟨d.msize, d.bytes, d.blocks.set d.next ⟨blockLen bs sz d.next, true⟩,
-              d.pending + 1, d.next + 1⟩ : ID) = d1 at hwf ⊢
+        have hout1 : outstanding (⟨d.msize, d.bytes, d.blocks.set d.next ⟨blockLen bs sz d.next, true, false⟩,
+              d.pending + 1, d.next + 1⟩ : ID) = outstanding d + 1 := by
+          have := countP_set_of_get (fun b : Blk => b.requested && !b.received) d.blocks d.next _
+            ⟨blockLen bs sz d.next, true, false⟩ hblk
+          simpa [outstanding] using this
+        generalize hd1 : (⟨d.msize, d.bytes, d.blocks.set d.next ⟨blockLen bs sz d.next, true, false⟩,
+              d.pending + 1, d.next + 1⟩ : ID) = d1 at hwf hout1 ⊢
         have hnx1 : d1.next = d.next + 1 := by rw [← hd1]
         have hpd1 : d1.pending = d.pending + 1 := by rw [← hd1]
         have hb1 : d1.bytes = d.bytes := by rw [← hd1]
         have := ih d1 (d.next :: acc) hwf (by omega)
         simp only at this
-        obtain ⟨w, hb, hnx, hs, hpd, hstop⟩ := this
-        refine ⟨w, by rw [hb, hb1], by omega, ?_, ?_, hstop⟩
+        obtain ⟨w, hb, hnx, hs, hpd, hstop, hout⟩ := this
+        refine ⟨w, by rw [hb, hb1], by omega, ?_, ?_, hstop, by rw [hout, hout1]; omega⟩
         · rw [hs]
           simp only [List.reverse_cons, List.append_assoc, List.singleton_append]
           congr 1
@@ -209,23 +289,24 @@ theorem requestLoop_spec {bs sz : Nat} (q : Int) :
         · rw [hpd, hpd1]
           omega
       · have e : requestLoop q (fuel + 1) d acc = (d, acc.reverse) := by
-          simp only [requestLoop, h.blk _ hn, hp, ↓reduceIte]
+          simp only [requestLoop, (h.blk _ hn).1, hp, ↓reduceIte]
         rw [e]
-        exact ⟨h, rfl, Nat.le_refl _, by simp, by simp, Or.inr hp⟩
+        exact ⟨h, rfl, Nat.le_refl _, by simp, by simp, Or.inr hp, by simp⟩
     · have hnone : d.blocks[d.next]? = none := by
         apply List.getElem?_eq_none; rw [h.nblk]; omega
       have e : requestLoop q (fuel + 1) d acc = (d, acc.reverse) := by
         simp only [requestLoop, hnone]
       rw [e]
       have := h.next_le
-      exact ⟨h, rfl, Nat.le_refl _, by simp, by simp, Or.inl (by show d.next = _; omega)⟩
+      exact ⟨h, rfl, Nat.le_refl _, by simp, by simp, Or.inl (by show d.next = _; omega), by simp⟩
 
 theorem requestBlocks_spec {bs sz : Nat} {d : ID} (h : WF bs sz d) (q : Int) :
     let r := requestBlocks d q
     WF bs sz r.1 ∧ r.1.bytes = d.bytes ∧ d.next ≤ r.1.next ∧
     r.2 = List.range' d.next (r.1.next - d.next) ∧
     r.1.pending = d.pending + ((r.1.next - d.next : Nat) : Int) ∧
-    (r.1.next = numBlocks bs sz ∨ ¬ r.1.pending < q) := by
+    (r.1.next = numBlocks bs sz ∨ ¬ r.1.pending < q) ∧
+    (outstanding r.1 : Int) = outstanding d + ((r.1.next - d.next : Nat) : Int) := by
   have := requestLoop_spec (bs := bs) (sz := sz) q (d.blocks.length - d.next) d [] h (by rw [h.nblk]; exact Nat.le_refl _)
   simpa [requestBlocks] using this
 
@@ -381,49 +462,122 @@ theorem mem_of_nodup_lt {l : List Nat} {n : Nat} (nd : l.Nodup) (hlt : ∀ x ∈
   simp [List.mem_range.2 hi] at this
   omega
 
+/-! ### Received marks, outstanding requests -/
+
+/-- The request loop does not touch the `received` marks. -/
+theorem requestLoop_recvd (q : Int) :
+    ∀ (fuel : Nat) (d : ID) (acc : List Nat) (j : Nat), recvd (requestLoop q fuel d acc).1 j = recvd d j := by
+  intro fuel
+  induction fuel with
+  | zero => intro d acc j; rfl
+  | succ fuel ih =>
+    intro d acc j
+    unfold requestLoop
+    split
+    · rfl
+    · rename_i b hb
+      split
+      · rw [ih]
+        unfold recvd
+        simp only [List.getElem?_set]
+        by_cases e : d.next = j
+        · subst e
+          obtain ⟨hl, hv⟩ := List.getElem?_eq_some_iff.1 hb
+          simp [hl, hv]
+        · simp [e]
+      · rfl
+
+theorem requestBlocks_recvd (d : ID) (q : Int) (j : Nat) : recvd (requestBlocks d q).1 j = recvd d j :=
+  requestLoop_recvd q _ d [] j
+
+/-- The window: the loop only adds a request while `pending < q`. -/
+theorem requestLoop_pending_le (q : Int) :
+    ∀ (fuel : Nat) (d : ID) (acc : List Nat),
+      (requestLoop q fuel d acc).1.pending ≤ max q d.pending ∧ d.pending ≤ (requestLoop q fuel d acc).1.pending := by
+  intro fuel
+  induction fuel with
+  | zero => intro d acc; exact ⟨Int.le_max_right _ _, Int.le_refl _⟩
+  | succ fuel ih =>
+    intro d acc
+    unfold requestLoop
+    split
+    · exact ⟨Int.le_max_right _ _, Int.le_refl _⟩
+    · split
+      · rename_i hp
+        have := ih { d with blocks := d.blocks.set d.next { ‹Blk› with requested := true },
+                            pending := d.pending + 1, next := d.next + 1 } (d.next :: acc)
+        simp only at this
+        omega
+      · exact ⟨Int.le_max_right _ _, Int.le_refl _⟩
+
 /-! ### The honest-peer invariant -/
 
 structure HInv (bs sz : Nat) (d : ID) (A : List (Nat × Bytes)) : Prop where
   wf : WF bs sz d
   pend : d.pending = (d.next : Int) - (A.length : Int)
   ans : ∀ p ∈ A, p.1 < d.next ∧ slice d.bytes (p.1 * bs) (blockLen bs sz p.1) = p.2
+  /-- the `received` marks are exactly the accepted answers (fix for C17-F6) … -/
+  rc : ∀ i, recvd d i = true ↔ i ∈ A.map (·.1)
+  /-- … so no index is accepted twice -/
+  nd : (A.map (·.1)).Nodup
+  /-- `pending` counts the requests without a stored answer -/
+  cnt : d.pending = (outstanding d : Int)
+
+theorem hinv_new {bs sz : Nat} (hbs : 0 < bs) : HInv bs sz (newWith bs sz) [] := by
+  refine ⟨wf_new hbs, by simp [newWith], by simp, ?_, by simp, ?_⟩
+  case refine_2 =>
+    have : outstanding (newWith bs sz) = 0 := by
+      simp only [outstanding, List.countP_eq_zero]
+      intro b hb
+      obtain ⟨i, hi, rfl⟩ := List.mem_iff_getElem.1 hb
+      have hi' : i < numBlocks bs sz := by rw [← (wf_new (sz := sz) hbs).nblk]; exact hi
+      have := ((wf_new (sz := sz) hbs).blk i hi').1
+      rw [List.getElem?_eq_getElem hi] at this
+      simp only [Option.some.injEq] at this
+      rw [this]
+      simp [newWith]
+    rw [this]; rfl
+  intro i
+  have : recvd (newWith bs sz) i = false := by
+    cases h : recvd (newWith bs sz) i
+    · rfl
+    · by_cases hi : i < numBlocks bs sz
+      · have := ((wf_new (sz := sz) hbs).blk i hi).2 h
+        simp [newWith] at this
+      · have hn : (newWith bs sz).blocks[i]? = none := by
+          apply List.getElem?_eq_none; rw [(wf_new (sz := sz) hbs).nblk]; omega
+        simp [recvd, hn] at h
+  simp [this]
 
 theorem hinv_run {bs sz : Nat} (hbs : 0 < bs) (ops : List Op) :
     ∀ {d : ID} {A : List (Nat × Bytes)}, HInv bs sz d A →
-      ((A ++ accepted bs d ops).map (·.1)).Nodup →
       HInv bs sz (run bs d ops) (A ++ accepted bs d ops) := by
   induction ops with
-  | nil => intro d A h _; simpa [accepted, run] using h
+  | nil => intro d A h; simpa [accepted, run] using h
   | cons op rest ih =>
-    intro d A h nd
+    intro d A h
     cases op with
     | req q =>
-      obtain ⟨w, hb, hnx, _, hp, _⟩ := requestBlocks_spec h.wf q
+      obtain ⟨w, hb, hnx, _, hp, _, hout⟩ := requestBlocks_spec h.wf q
       have h' : HInv bs sz (requestBlocks d q).1 A := by
-        refine ⟨w, ?_, ?_⟩
+        refine ⟨w, ?_, ?_, ?_, h.nd, by rw [hp, hout, h.cnt]⟩
         · rw [hp, h.pend]; omega
         · intro p hp'
           have := h.ans p hp'
           rw [hb]
           exact ⟨by omega, this.2⟩
-      exact ih h' nd
+        · intro i; rw [requestBlocks_recvd]; exact h.rc i
+      exact ih h'
     | got i data =>
       have hspec := gotBlock_spec hbs h.wf i data
       by_cases hok : (gotBlock bs d i data).2 = .ok
       · -- accepted
         have hacc : accepted bs d (.got i data :: rest) = (i, data) :: accepted bs (gotBlock bs d i data).1 rest := by
           simp [accepted, hok]
-        rw [hacc] at nd ⊢
+        rw [hacc]
         have e : A ++ (i, data) :: accepted bs (gotBlock bs d i data).1 rest =
             (A ++ [(i, data)]) ++ accepted bs (gotBlock bs d i data).1 rest := by simp
-        rw [e] at nd ⊢
-        have hi_notin : ∀ p ∈ A, p.1 ≠ i := by
-          have nd1 : ((A ++ [(i, data)]).map (·.1)).Nodup := by
-            rw [List.map_append] at nd
-            exact (List.nodup_append.1 nd).1
-          rw [List.map_append, List.nodup_append] at nd1
-          intro p hp
-          exact nd1.2.2 p.1 (List.mem_map_of_mem hp) i (by simp)
+        rw [e]
         -- unfold the result
         rw [hspec] at hok
         have h' : HInv bs sz (gotBlock bs d i data).1 (A ++ [(i, data)]) := by
@@ -434,16 +588,34 @@ theorem hinv_run {bs sz : Nat} (hbs : 0 < bs) (ops : List Op) :
           · cases hok
           split at hok
           · cases hok
-          rename_i h1 h2 h3
-          simp only [h1, h2, h3, ↓reduceIte]
+          split at hok
+          · cases hok
+          rename_i h1 h2 h3 h4
+          simp only [h1, h2, h3, h4, Bool.false_eq_true, ↓reduceIte]
           have hi : i < numBlocks bs sz := by omega
           have hr := range_le (sz := sz) hbs hi
           have hl : data.length = blockLen bs sz i := by omega
           have hfit : i * bs + data.length ≤ d.bytes.length := by rw [h.wf.blen]; omega
+          have hil : i < d.blocks.length := by rw [h.wf.nblk]; exact hi
           have hwf := wf_gotBlock hbs h.wf i data
           rw [hspec] at hwf
-          simp only [h1, h2, h3, ↓reduceIte] at hwf
-          refine ⟨hwf, ?_, ?_⟩
+          simp only [h1, h2, h3, h4, Bool.false_eq_true, ↓reduceIte] at hwf
+          have hi_notin' : i ∉ A.map (·.1) := fun hm => h4 ((h.rc i).2 hm)
+          have hi_notin : ∀ p ∈ A, p.1 ≠ i := fun p hp e => hi_notin' (e ▸ List.mem_map_of_mem hp)
+          refine ⟨hwf, ?_, ?_, ?_, ?_, ?_⟩
+          case refine_5 =>
+            have hblk := (h.wf.blk i hi).1
+            have h2' : i < d.next := by omega
+            have h4' : recvd d i = false := by simpa using h4
+            rw [h4'] at hblk
+            have := countP_set_of_get (fun b : Blk => b.requested && !b.received) d.blocks i _
+              ⟨blockLen bs sz i, true, true⟩ hblk
+            simp only [h2', decide_true, Bool.not_false, Bool.and_self, ↓reduceIte, Bool.not_true,
+              Bool.and_false, Bool.false_eq_true, Nat.add_zero] at this
+            show d.pending - 1 = ((d.blocks.set i _).countP _ : Int)
+            rw [h.cnt]
+            simp only [outstanding]
+            omega
           · simp only [h.pend, List.length_append, List.length_singleton]; omega
           · intro p hp
             rw [List.mem_append] at hp
@@ -472,16 +644,29 @@ theorem hinv_run {bs sz : Nat} (hbs : 0 < bs) (ops : List Op) :
               simp only
               rw [← hl]
               exact slice_splice_same _ _ _ hfit
-        exact ih h' nd
+          · intro j
+            rw [recvd_set d i j _ hil]
+            by_cases e : i = j
+            · subst e; simp
+            · have e' : ¬ j = i := fun x => e x.symm
+              simp only [e, ↓reduceIte, h.rc j, List.map_append, List.map_cons, List.map_nil, List.mem_append,
+                List.mem_singleton, e', or_false]
+          · rw [List.map_append, List.nodup_append]
+            refine ⟨h.nd, by simp, ?_⟩
+            intro a ha b hb
+            simp only [List.map_cons, List.map_nil, List.mem_singleton] at hb
+            subst hb
+            exact fun e => hi_notin' (e ▸ ha)
+        exact ih h'
       · -- rejected: state unchanged
         have hacc : accepted bs d (.got i data :: rest) = accepted bs (gotBlock bs d i data).1 rest := by
           simp [accepted, hok]
-        rw [hacc] at nd ⊢
+        rw [hacc]
         have hsame : (gotBlock bs d i data).1 = d := by
           rw [hspec] at hok ⊢
           repeat' split
           all_goals first | rfl | (exfalso; simp_all)
         have h' : HInv bs sz (gotBlock bs d i data).1 A := by rw [hsame]; exact h
-        exact ih h' nd
+        exact ih h'
 
 end Rain.InfoDL
